@@ -396,6 +396,11 @@ func (s *seq) stepInsert() {
 		default:
 			val = 1.5
 		}
+		if _, isFloat := val.(float64); isFloat && field == "n" {
+			// the integer operators of the query language read a fractional number
+			// truncated; the reference evaluator only models whole numbers in n
+			val = 7
+		}
 		body, _ := json.Marshal(map[string]any{field: val})
 		tag := "insert/json-object"
 		if !s.allowed(tag) {
